@@ -39,7 +39,7 @@ def plans(ctx):
                 # iauth_class with a trust_username rule and ident answers that start with '~': the pre-registration hook
                 # prints a U line and may re-enter the acceptance gate
                 R.Plan("trust", "S_t1d", emit_mod=6, max_inst=1, max_pw=1, rich_sel="RichTilde", opts=TRUST)]
-    return [R.Plan("qr", "S_q1", emit_mod=50, max_inst=2, max_pw=1, stray=2, junk=True, also=RT(40)),
+    return [R.Plan("qr", "S_q1", emit_mod=100, max_inst=2, max_pw=1, stray=2, junk=True, also=RT(40)),
             R.Plan("qr3", "S_t1d", emit_mod=20, max_inst=3, max_pw=1, stray=1),
             R.Plan("trust", "S_q1", emit_mod=10, max_inst=2, max_pw=1, stray=1, rich_sel="RichTilde", opts=TRUST),
             R.Plan("t1c", "S_t1c", emit_mod=12, max_inst=1, max_pw=2),
